@@ -3,6 +3,7 @@ package props
 import (
 	"fmt"
 	"strings"
+	"verif/alpha"
 
 	lib "github.com/corazawaf/libinjection-go"
 
@@ -282,8 +283,13 @@ func init() {
 						}
 					})
 				}, Eval: evalC04},
+			{Name: "count-sweep", Space: "5 vectors preceded by k copies of each of 5 units for every k in 0..300, in 3 breakout forms: detection must not depend on how much markup precedes the vector", Share: 1,
+				Run: func(w *fw.W) {
+					l := alpha.CountSweepHTML()
+					w.Each(len(l), func(i int) { w.Item(l[i], "count-sweep") })
+				}, Eval: evalC04},
 			{Name: "length-boundaries", Space: "black names NUL-padded with 0..64 NULs, URL values with 0..1000 junk bytes / zero digits before the scheme", Share: 1,
-				Run: func(w *fw.W) { l := lenFamilyHTML(); w.Each(len(l), func(i int) { w.Item(l[i], "length-boundary") }) }, Eval: evalC04},
+				Run: func(w *fw.W) { l := lenVectorsHTML(); w.Each(len(l), func(i int) { w.Item(l[i], "length-boundary") }) }, Eval: evalC04},
 		},
 	})
 }
